@@ -273,6 +273,13 @@ var("C19", "replica-count-rounded", KET, "limit := int(float32(float64(pct) * 40
 mut("C19", "listing-position-stored-in-point", KET, "\t\t\t\t\tbucket: buckets[i],\n", "\t\t\t\t\tbucket: buckets[i],\n\t\t\t\t\tidx:    i,\n", "R19.8", "does not compile unless the field exists: skipped then")
 mut("C10", "reset-onto-second-unflushed-writer", CH, "\th.rw.Writer.Reset(h.conn)\n", "\th.rw.Writer.Reset(bufio.NewWriter(h.conn))\n", "R10.8", "defect F20 again")
 
+_LK_OLD = "\tif multipleReaders {\n\t\tfor idx := range locks[slot] {\n\t\t\ttemp := &sync.RWMutex{}\n\t\t\tlocks[slot][idx] = temp\n\t\t\trlocks[slot][idx] = temp.RLocker()\n\t\t}\n\t} else {\n\t\tfor idx := range locks[slot] {\n\t\t\ttemp := &sync.Mutex{}\n\t\t\tlocks[slot][idx] = temp\n\t\t\trlocks[slot][idx] = temp\n\t\t}\n\t}\n"
+_LK_MERGED = "\tfor idx := range locks[slot] {\n\t\tvar w, r sync.Locker\n\t\tif multipleReaders {\n\t\t\ttemp := &sync.RWMutex{}\n\t\t\tw, r = temp, temp.RLocker()\n\t\t} else {\n\t\t\ttemp := &sync.Mutex{}\n\t\t\tw, r = temp, temp\n\t\t}\n\t\tlocks[slot][idx], rlocks[slot][idx] = w, r\n\t}\n"
+_LK_SPLIT = "\tfor idx := range locks[slot] {\n\t\tvar w, r sync.Locker = &sync.Mutex{}, &sync.Mutex{}\n\t\tif multipleReaders {\n\t\t\ttemp := &sync.RWMutex{}\n\t\t\tw, r = temp, temp.RLocker()\n\t\t}\n\t\tlocks[slot][idx], rlocks[slot][idx] = w, r\n\t}\n"
+var("C03", "lock-tables-filled-in-one-loop", LOCKED, _LK_OLD, _LK_MERGED, "one loop, both modes, one mutex per bucket")
+mut("C03", "single-reader-mode-two-mutexes-per-bucket", LOCKED, _LK_OLD, _LK_SPLIT, "R3.6", "seed C03E: a get no longer excludes a set of the same key")
+mut("C03", "reader-lock-of-a-second-rwmutex", LOCKED, "\t\t\trlocks[slot][idx] = temp.RLocker()\n", "\t\t\trlocks[slot][idx] = (&sync.RWMutex{}).RLocker()\n", "R3.6")
+
 for prop, ms in sorted(M.items()):
     json.dump(ms, open(os.path.join(ROOT, "rendlint", "mutants", prop + ".json"), "w"), indent=1)
     print(prop, len([m for m in ms if m["kind"] == "mutant"]), "mutants,", len([m for m in ms if m["kind"] == "variant"]), "variants")
